@@ -260,7 +260,10 @@ def main(argv):
         for k, v in mine.items():
             obligations[k] = v
             if k in getattr(g, 'review', ()):
-                undecided.append('isolated function (an optional item is present whose effect on this property no contract here can decide): %s — %s' % (k, v.get('expr', '')))
+                if 'anchor statement is gone' in v.get('kind', ''):
+                    undecided.append('isolated function (the statement this labelled assertion is attached to is gone, the assertion cannot be placed): %s — %s' % (k, v.get('expr', '')))
+                else:
+                    undecided.append('isolated function (an optional item is present whose effect on this property no contract here can decide): %s — %s' % (k, v.get('expr', '')))
                 continue
             if v['fn'] in g.stubbed:
                 continue
